@@ -30,7 +30,13 @@ struct App : public Potassco::Application {
 	void initOptions(Potassco::ProgramOptions::OptionContext&) {}
 	void validateOptions(const Potassco::ProgramOptions::OptionContext&, const Potassco::ProgramOptions::ParsedOptions&, const Potassco::ProgramOptions::ParsedValues&) {}
 	void setup() {}
-	void run() {}
+	// The schedule is executed either on a fresh object or (every other case) inside run() of a SECOND main() call on an object whose
+	// first run completed: Application::main() must start every run with delivery unblocked and nothing remembered, so both are the
+	// same for the model.
+	std::vector<ll>* ops; bool active;
+	App() : ops(0), active(false) {}
+	void execOps();
+	void run() { if (active) { execOps(); } }
 	void info(const char*) const {}
 	bool onSignal(int s) {
 		o.add(20); o.add(s);
@@ -41,7 +47,9 @@ struct App : public Potassco::Application {
 	}
 };
 
+static bool recording = true;
 static void yieldPoint(int k) {
+	if (!recording) return;
 	for (;;) {
 		o.add(k); o.add(app->blocked_); o.add(app->pending_);
 		ll d = cur->next(); // 0 when exhausted
@@ -49,6 +57,21 @@ static void yieldPoint(int k) {
 		o.add(30); o.add(d);
 		app->processSignal(static_cast<int>(d));
 	}
+}
+
+void App::execOps() {
+	for (size_t i = 0; i != ops->size(); ++i) {
+		switch ((*ops)[i]) {
+			case 1:  yieldPoint(7); blockSignals(); break;
+			case 2:  yieldPoint(8); unblockSignals(false); break;
+			case 3:  yieldPoint(8); unblockSignals(true); break;
+			case 4:  yieldPoint(7); shutdown(false); break;
+			default: break;
+		}
+	}
+	// arrivals after the last operation of the main flow
+	yieldPoint(0); // its last record "0 blocked_ pending_" is the final state
+	recording = false; // what main() itself does after run() (its own shutdown) is not part of the schedule
 }
 
 int main() {
@@ -61,18 +84,15 @@ int main() {
 		answers.clear(); ansPos = 0;
 		for (ll n = c.next(); n > 0 && c.more(); --n) answers.push_back(c.next());
 		try {
-			App a; app = &a;
-			for (size_t i = 0; i != ops.size(); ++i) {
-				switch (ops[i]) {
-					case 1:  yieldPoint(7); a.blockSignals(); break;
-					case 2:  yieldPoint(8); a.unblockSignals(false); break;
-					case 3:  yieldPoint(8); a.unblockSignals(true); break;
-					case 4:  yieldPoint(7); a.shutdown(false); break;
-					default: break;
-				}
+			App a; app = &a; a.ops = &ops;
+			ll h = 0; for (size_t i = 0; i != c.v.size(); ++i) h += c.v[i];
+			if ((h & 1) == 0) { recording = true; a.execOps(); }
+			else {
+				char name[] = "h_c18"; char* argv[] = { name, 0 };
+				recording = false; a.active = false; a.main(1, argv);   // a complete first run (its shutdown takes a block)
+				recording = true;  a.active = true;  a.main(1, argv);   // the schedule runs inside the second run
+				recording = false;
 			}
-			// arrivals after the last operation of the main flow
-			yieldPoint(0); // its last record "0 blocked_ pending_" is the final state
 			app = 0;
 		}
 		catch (...) { o.add(-1); }
